@@ -527,7 +527,8 @@ def clause_serializer(facts, rep, tier):
     rep.require('kObject' in tags and 'kSerErrorInfinity' in errs and 'kSerErrorInvalidObjKey' in errs, 'C06: TypeFlag / SonicError enumerators not found')
     fns = [f for f in facts.functions if f.short == 'SerializeImpl']
     rep.require(len(fns) >= 1, 'C06: SerializeImpl not found')
-    leaf_kinds = [lambda: Node('uint', 7), lambda: Node('sint', -3), lambda: Node('real', '1.5'), lambda: Node('true'), lambda: Node('false'),
+    leaf_kinds = [lambda: Node('uint', 7), lambda: Node('sint', -3), lambda: Node('uint', (1 << 64) - 1), lambda: Node('uint', 1 << 63), lambda: Node('sint', -(1 << 63)),
+                  lambda: Node('real', '1.5'), lambda: Node('true'), lambda: Node('false'),
                   lambda: Node('null'), lambda: S(2), lambda: S(0), lambda: Node('raw', '[1, 2]'), lambda: Node('arr'), lambda: Node('obj')]
     for f in (fns if tier == 'thorough' else fns[:1]):
         rep.fn(f)
@@ -670,6 +671,14 @@ def run(rep, tier):
     # of the branches is a note, not a verdict
     for r_ in ('E3.kdigits-index', 'E3.digit-char'):
         rep.corroborate(r_, 'E5.format', only=lambda v: 'ftoa.h' in (v.get('loc') or ''))
+    # the reservation budget of SerializeImpl (every unchecked write covered by the Grow in force) is also decided by the
+    # exploration, whose write-buffer model reserves exactly what is asked for (sv/ser_model.py)
+    rep.corroborate('E4.budget', 'E6.serializer')
+    rep.corroborate('E9.kind-dispatch', 'E6.serializer')
+    rep.corroborate_floor('C08: number sub-type dispatch', 'E6.serializer')
+    rep.corroborate('E1.inf-err', 'E6.serializer')      # the exploration includes the non-finite doubles: nothing may be pushed for them
+    rep.corroborate_floor('C06.b:', 'E6.serializer')
+    rep.corroborate_floor('C06.a:', 'E6.serializer')
     rep.trust('clang 14 front end', 'std::realloc(p, n) returns a block of n bytes keeping the old contents',
               *['%s write contract: %s' % (k, v['why']) for k, v in WRITER_CONTRACT.items()])
     rep.assumptions += [
